@@ -21,7 +21,7 @@ RULE = (
 ASSUMPTIONS = [
     'zones are fixed-offset over the span of each record (origins are chosen away from the historical transitions of the zones used)',
 ]
-SIZES = {'quick': dict(ties=90, planted=24), 'thorough': dict(ties=4000, planted=800)}
+SIZES = {'quick': dict(ties=180, planted=40), 'thorough': dict(ties=4000, planted=800)}
 REQUIRED = {
     tier: {
         'variants-compared': 150,
